@@ -17,7 +17,7 @@ import (
 
 // ---- C14: operation lookups ----
 
-var c14Media = []any{nil, []any{}, []any{"x"}, []any{"x", "y"}}
+var c14Media = []any{nil, []any{}, []any{"x"}, []any{"x", "y"}, []any{"X"}, []any{"y", "x", "Y"}} // media types are compared as written: "x" and "X" are two
 var c14Security = []any{nil, []any{}, []any{J{}}, []any{J{"k": []any{}}}, []any{J{"k": []any{"s"}}, J{"j": []any{}}}, []any{J{"k": []any{"s"}, "j": []any{"t", "u"}}},
 	// a later alternative combines an already seen scheme with new ones; an alternative naming an undefined scheme
 	[]any{J{"k": []any{}}, J{"j": []any{}, "k": []any{"s"}, "m": []any{}}}, []any{J{"m": []any{}}, J{}, J{"undefined": []any{}}},
